@@ -14,6 +14,10 @@ class C07(E1Prop):
                   '(not exhaustive); the Lean model is tied to the code only as far as the compared answers and dumps show. '
                   'Known findings of the unchanged tree are listed in known_findings.json and printed as KNOWN-FINDING.')
 
+    def make_history(self, rng):
+        from ..batchdb import gen
+        return gen.history(rng, cancel_bias=0.07)
+
     def nontrivial(self, r):
         return any(t in r.tags for t in self.nontrivial_tags)
 
